@@ -14,6 +14,7 @@ mod fx;
 mod interpose;
 mod prng;
 mod proc;
+mod selftest;
 mod simfs;
 
 use common::*;
@@ -505,6 +506,10 @@ fn main() {
         "audit" => {
             let n: u64 = args.get(2).and_then(|s| s.parse().ok()).unwrap_or(200);
             dispatch!(args[1].as_str(), e => audit(e, n))
+        }
+        "selftest-simfs" => {
+            let n: u64 = args.get(1).and_then(|s| s.parse().ok()).unwrap_or(2000);
+            selftest::run(n)
         }
         "firstrun" => {
             let sc = c09::generate(prng::mix(base_seed(), 0, 9), 6);
